@@ -2723,7 +2723,22 @@ class BaseInterpreter(Generic[TContext, TEvent]):
             return parent
 
         # The LCCA is the deepest common ancestor.
-        return max(common_ancestors, key=lambda n: n.depth)
+        domain = max(common_ancestors, key=lambda n: n.depth)
+
+        # 🕰️ A history child of a PARALLEL state is not one of its regions.
+        #    With the parallel state itself as the domain, the region scoping
+        #    in `_compute_states_to_exit` finds nothing to exit (a history
+        #    node is never active) and the restored states are then entered
+        #    next to the ones still active - two active children in one
+        #    region. Restoring a parallel state's history means leaving and
+        #    re-entering that state, so the domain is its parent.
+        if (
+            target_state.type == "history"
+            and domain.type == "parallel"
+            and target_state.parent is domain
+        ):
+            return domain.parent
+        return domain
 
     @staticmethod
     def _get_path_to_state(
